@@ -275,9 +275,14 @@ func (s *Sched) threadBody(t *Thread, f func()) {
 			case s.endCh <- pathEnd{"gopanic", fmt.Sprintf("uncaught panic in goroutine %s: %s", t.name, msg)}:
 			default:
 			}
+		case *engineBug:
+			select {
+			case s.endCh <- pathEnd{"engine-bug", r.msg + r.istack + "\n" + r.gstack}:
+			default:
+			}
 		default:
 			select {
-			case s.endCh <- pathEnd{"engine-bug", fmt.Sprintf("%v\n%s", r, stackTrace())}:
+			case s.endCh <- pathEnd{"engine-bug", fmt.Sprintf("%v\n%s", r, innermost(stackTrace()))}:
 			default:
 			}
 		}
